@@ -173,6 +173,9 @@ func cmdCheck(args []string) int {
 		if v, ok := params["MaxPaths"]; ok {
 			cfg.MaxPaths = v
 		}
+		if v, ok := params["MaxBlockVisits"]; ok {
+			cfg.MaxBlockVisits = v
+		}
 		if mp := os.Getenv("VERIF_MAXPATHS"); mp != "" {
 			fmt.Sscanf(mp, "%d", &cfg.MaxPaths)
 		}
